@@ -10,6 +10,7 @@
 #include <iomanip>
 #include <memory>
 #include <sstream>
+#include <stdexcept>
 #include <string>
 #include <vector>
 #include "ola/DmxBuffer.h"
@@ -390,32 +391,30 @@ static string handle(const string &p) {
     return "s=" + hx(s) + ";ok=1;a=" + vh::hex(reinterpret_cast<uint8_t*>(&bv), 4) + ";p=" + udec(back.Port());
   }
   if (op == "ip6") {
-    // IPv6 text is owned by inet_pton/inet_ntop; the OLA wrapper must add nothing but the
-    // empty-text check: compare with the bare libc call.
     string t = text_of(a[1]);
     struct in6_addr raw;
-    bool rok = !t.empty() && inet_pton(AF_INET6, t.c_str(), &raw) == 1;
+    // the bare libc call on the same C string (validates Ipv6.inet_pton6)
+    bool rok = inet_pton(AF_INET6, t.c_str(), &raw) == 1;
+    string r = string("lraw=") + (rok ? vh::hex(reinterpret_cast<uint8_t*>(&raw), 16) : "none");
     ola::network::IPV6Address ip;
-    bool ok = ola::network::IPV6Address::FromString(t, &ip);
-    bool same = ok == rok;
-    if (ok && rok) {
-      uint8_t b[16];
-      ip.Get(b);
-      same = memcmp(b, &raw, 16) == 0;
-      ola::network::IPV6Address back;
-      same = same && ola::network::IPV6Address::FromString(ip.ToString(), &back) && back == ip;
-    }
-    return string("wrap=") + (same ? "1" : "0");
+    if (!ola::network::IPV6Address::FromString(t, &ip)) return r + ";ok=0";
+    uint8_t b[16];
+    ip.Get(b);
+    return r + ";ok=1;a=" + vh::hex(b, 16) + ";s=" + hx(ip.ToString());
   }
   if (op == "ip6v") {
     vector<uint8_t> d = vh::unhex(a[1]);
     ola::network::IPV6Address ip(d.data());
     string s = ip.ToString();
-    ola::network::IPV6Address back;
-    bool ok = ola::network::IPV6Address::FromString(s, &back) && back == ip;
     char buf[INET6_ADDRSTRLEN];
-    bool same = inet_ntop(AF_INET6, d.data(), buf, sizeof(buf)) && s == buf;
-    return string("rt=") + (ok ? "1" : "0") + ";wrap=" + (same ? "1" : "0");
+    // the bare libc call (validates Ipv6.ipv6_to_text)
+    string lt = inet_ntop(AF_INET6, d.data(), buf, sizeof(buf)) ? string(buf) : string("?");
+    ola::network::IPV6Address back;
+    string r = "s=" + hx(s) + ";lt6=" + hx(lt);
+    if (!ola::network::IPV6Address::FromString(s, &back)) return r + ";ok=0";
+    uint8_t b[16];
+    back.Get(b);
+    return r + ";ok=1;a=" + vh::hex(b, 16);
   }
   if (op == "cid") {
     string t = text_of(a[1]);
@@ -450,7 +449,7 @@ static string handle(const string &p) {
     if (ty == "mac") return strm(ola::network::MACAddress(d.data()), adj, base, fill, w, n, true);
     if (ty == "cid") return strm(ola::acn::CID::FromData(d.data()), adj, base, fill, w, n, true);
     if (ty == "dmx") return strm(ola::DmxBuffer(d.data(), d.size()), adj, base, fill, w, n, true);
-    if (ty == "ip6") return strm(ola::network::IPV6Address(d.data()), adj, base, fill, w, n, false);
+    if (ty == "ip6") return strm(ola::network::IPV6Address(d.data()), adj, base, fill, w, n, true);
     uint32_t v4;
     memcpy(&v4, d.data(), 4);
     if (ty == "ip4") return strm(ola::network::IPV4Address(v4), adj, base, fill, w, n, true);
@@ -475,7 +474,18 @@ static string handle(const string &p) {
   return "bad-op";
 }
 
+// A printer or parser that throws is a failed conversion on a concrete input, not a harness crash.
+static string guarded(const string &p) {
+  try {
+    return handle(p) + ";exc=0";
+  } catch (const std::exception &e) {
+    return "exc=1";
+  } catch (...) {
+    return "exc=1";
+  }
+}
+
 int main(int argc, char **argv) {
   ola::InitLogging(ola::OLA_LOG_NONE, ola::OLA_LOG_NULL);
-  return vh::run(argc, argv, handle);
+  return vh::run(argc, argv, guarded);
 }
